@@ -37,6 +37,10 @@ type SimplePage struct {
 	// reference to an object the file does not have between the two
 	// ([A ghost B]; ISO 32000-1 7.3.10: such a reference reads as null)
 	GhostContent bool
+	// CutOff: after the items the content stream goes on with one more show operation
+	// that is damaged: "string" = the stream ends inside its literal string,
+	// "hex" = its hexadecimal string holds a character that is no hex digit
+	CutOff string
 }
 
 // SimplePDF writes a plain single-revision PDF (classic xref, direct lengths,
@@ -135,6 +139,12 @@ func contentStream(p SimplePage, content string) *Stream {
 			raw = []byte("00 01 20 74 68 69 73 20 69 73 20 6e 6f 74 20 7a 6c 69 62 ff fe>")
 		}
 		return &Stream{D: Dict{{"Filter", filter}}, Raw: raw, LenMode: "direct"}
+	}
+	switch p.CutOff {
+	case "string":
+		content += "BT /F1 11 Tf 1 0 0 1 72 90 Tm (Confidential draft, do not distribute: the stream ends he"
+	case "hex":
+		content += "BT /F1 11 Tf 1 0 0 1 72 90 Tm <436f6e666964656e7469616c20647261667421zz> Tj ET\n"
 	}
 	return &Stream{Raw: []byte(content), LenMode: "direct"}
 }
